@@ -1043,7 +1043,8 @@ def selftest():
 def reserialize(data, node, target=None, how=None, arg=None):
     """Re-serialise the TLV tree under `node` (from walk) with minimal definite lengths, applying one rewrite
     to the node `target`:  how = 'indef'  constructed node gets indefinite length;
-    'segment'  primitive string node becomes constructed with one or two segments (arg: is_bits);
+    'segment'  primitive string node becomes constructed (arg: is_bits, or (is_bits, nparts): nparts 0 = no segment at all
+    (empty strings only), 1 = one segment, 2 = two when the contents allow, None = as many as the contents allow up to two);
     'content'  primitive node gets the contents octets arg."""
     if node.con:
         body = b''.join(reserialize(data, k, target, how, arg) for k in node.kids)
@@ -1055,17 +1056,21 @@ def reserialize(data, node, target=None, how=None, arg=None):
         if how == 'content':
             body = arg
         if how == 'segment':
-            is_bits = arg
+            is_bits, nparts = arg if isinstance(arg, tuple) else (arg, None)
             segtag = ident('U', False, 3 if is_bits else 4)
-            if is_bits:
+            if nparts == 0:
+                if body != (b'\x00' if is_bits else b''):
+                    raise ValueError('only an empty string has a segment-less constructed form')
+                parts = []
+            elif is_bits:
                 unused, payload = body[0], body[1:]
-                if len(payload) >= 2:
+                if len(payload) >= 2 and nparts != 1:
                     h = len(payload) // 2
                     parts = [bytes([0]) + payload[:h], bytes([unused]) + payload[h:]]
                 else:
                     parts = [body]
             else:
-                if len(body) >= 2:
+                if len(body) >= 2 and nparts != 1:
                     h = len(body) // 2
                     parts = [body[:h], body[h:]]
                 else:
